@@ -12,6 +12,7 @@ symmetric eigensolver (see MANIFEST note of checks/c02.py).
 -/
 import SharkVerif.Lemmas.LinSolveChol
 import SharkVerif.Lemmas.LinSolveLU
+import SharkVerif.Lemmas.LinSolveUnique
 namespace SharkVerif.C02
 open SharkVerif.LinSolve
 
@@ -291,5 +292,100 @@ theorem solve_spd_correct (r : Rat → Rat) (n : Nat) (A : Mat) (b : Vec) (hr : 
     · by_cases hlt : i < k
       · simp [hik, hlt]
       · simp [hik, hlt]; exact chol_upper_zero r n A hk hi (by omega)
+
+/-! ## uniqueness, explicit inverse -/
+
+/-- a regular triangular system has exactly one solution, the one `trsv` returns.  Consequence for
+the tie: the blocked recursion of `trsm_recursive` / the column-major kernels, which also produce a
+solution of `T x = b` in exact arithmetic, cannot return anything else than the modelled loop. -/
+theorem trsv_unique (t : Tri) (n : Nat) (A : Mat) (b x : Vec) (h : triSingular t n A = false)
+    (hx : ∀ i, i < n → mulVec n (triPart t A) x i = b i) :
+    ∀ i, i < n → x i = trsv t true n A b i :=
+  trsvLeft_unique t n A b x ((regular_iff_not_singular t n A).mpr h) hx
+
+theorem mulVec_ident (n : Nat) (b : Vec) {i : Nat} (hi : i < n) : mulVec n ident b i = b i := by
+  unfold mulVec
+  rw [sum_single hi]
+  · simp [ident]
+  · intro k _ hk
+    have : ¬ i = k := fun e => hk e.symm
+    simp [ident, this]
+
+/-- **`inv(A, tag) % b` = `solve(A, b, tag, left)`** for the triangular tags: the explicit inverse
+`X` (`matrix_inverse::assign_to`: identity right-hand side, `trsm`) applied to `b` is the vector the
+solve call returns — for every size and every regular triangular system. -/
+theorem inv_prod_is_solve (t : Tri) (n : Nat) (A : Mat) (b : Vec) (h : triSingular t n A = false) :
+    ∀ i, i < n → mulVec n (trsm t true n n A ident) b i = trsv t true n A b i := by
+  apply trsv_unique t n A b _ h
+  intro i hi
+  rw [← mulVec_mul]
+  rw [show mulVec n (mul n (triPart t A) (trsm t true n n A ident)) b i = mulVec n ident b i from
+    mulVec_congr (fun k hk => trsm_correct_left t n n A ident h i k hi hk) (fun _ _ => rfl)]
+  exact mulVec_ident n b hi
+
+/-- uniqueness for the Cholesky-based solve: any `x` with `A x = b` is the vector returned -/
+theorem solve_spd_unique (r : Rat → Rat) (n : Nat) (A : Mat) (b x : Vec) (hr : SqrtSpec r n A)
+    (h0 : potrfInfo false r n A = 0) (hsym : ∀ i j, i < n → j < n → A i j = A j i)
+    (hx : ∀ i, i < n → mulVec n A x i = b i) :
+    ∀ i, i < n → x i = vget (solveSpdArr r n A b) i := by
+  set Lm : Mat := chol r n A with hLm
+  have hdiag : ∀ j, j < n → Lm j j ≠ 0 := by
+    intro j hj
+    rw [hLm, chol_entry r n A hj hj, if_neg (by omega), if_pos rfl]
+    exact ne_of_gt (chol_diag_pos r n A hr h0 hj).2
+  have hreg1 : triSingular ⟨false, false⟩ n Lm = false :=
+    (regular_iff_not_singular _ n Lm).mp (fun _ j hj => hdiag j hj)
+  have hreg2 : triSingular ⟨true, false⟩ n (transpose Lm) = false :=
+    (regular_iff_not_singular _ n (transpose Lm)).mp (fun _ j hj => hdiag j hj)
+  have hT1 : ∀ i k, i < n → k < n → triPart ⟨false, false⟩ Lm i k = Lm i k := by
+    intro i k hi hk
+    unfold triPart
+    by_cases hik : i = k
+    · subst hik; simp
+    · by_cases hlt : k < i
+      · simp [hik, hlt]
+      · simp [hik, hlt]; exact (chol_upper_zero r n A hi hk (by omega)).symm
+  have hT2 : ∀ i k, i < n → k < n → triPart ⟨true, false⟩ (transpose Lm) i k = transpose Lm i k := by
+    intro i k hi hk
+    unfold triPart transpose
+    by_cases hik : i = k
+    · subst hik; simp
+    · by_cases hlt : i < k
+      · simp [hik, hlt]
+      · simp [hik, hlt]; exact (chol_upper_zero r n A hk hi (by omega)).symm
+  -- y = Lᵀ x solves L y = b
+  set y : Vec := mulVec n (transpose Lm) x with hy
+  have hy1 : ∀ i, i < n → y i = trsv ⟨false, false⟩ true n Lm b i := by
+    apply trsv_unique ⟨false, false⟩ n Lm b y hreg1
+    intro i hi
+    rw [show mulVec n (triPart ⟨false, false⟩ Lm) y i = mulVec n Lm y i from
+      mulVec_congr (fun k hk => hT1 i k hi hk) (fun _ _ => rfl)]
+    rw [hy, ← mulVec_mul, ← hx i hi]
+    exact mulVec_congr (fun k hk => chol_full r n A hr h0 hsym i k hi hk) (fun _ _ => rfl)
+  -- x solves Lᵀ x = y
+  have hx2 := trsv_unique ⟨true, false⟩ n (transpose Lm) (trsv ⟨false, false⟩ true n Lm b) x hreg2 (by
+    intro i hi
+    rw [← hy1 i hi, hy]
+    exact mulVec_congr (fun k hk => hT2 i k hi hk) (fun _ _ => rfl))
+  intro i hi
+  rw [hx2 i hi]
+  rfl
+
+/-- **`inv(A, symm_pos_def()) % b` = `solve(A, b, symm_pos_def(), left)`**: the explicit inverse
+(solve applied to the columns of the identity) times `b` equals the solve call. -/
+theorem inv_prod_is_solve_spd (r : Rat → Rat) (n : Nat) (A : Mat) (b : Vec) (hr : SqrtSpec r n A)
+    (h0 : potrfInfo false r n A = 0) (hsym : ∀ i j, i < n → j < n → A i j = A j i) :
+    ∀ i, i < n →
+      mulVec n (fun i k => vget (solveSpdArr r n A (fun i' => ident i' k)) i) b i
+        = vget (solveSpdArr r n A b) i := by
+  apply solve_spd_unique r n A b _ hr h0 hsym
+  intro i hi
+  rw [← mulVec_mul]
+  rw [show mulVec n (mul n A (fun i k => vget (solveSpdArr r n A (fun i' => ident i' k)) i)) b i
+      = mulVec n ident b i from
+    mulVec_congr (fun k hk => by
+      have := solve_spd_correct r n A (fun i' => ident i' k) hr h0 hsym i hi
+      unfold mul; unfold mulVec at this; exact this) (fun _ _ => rfl)]
+  exact mulVec_ident n b hi
 
 end SharkVerif.C02
